@@ -42,4 +42,18 @@ CLAIMS = {
         "technique": "call-graph SCC + dominator/dataflow analysis of the depth counter, panic-site inventory with guard "
                      "discharge, natural-loop progress analysis, conditional constant propagation over the first input byte",
     },
+    "C16": {
+        "text": "Claimed for every list length (a property of the whole-program call graph): in the monomorphic call graph of "
+                "every list-walking public operation (parse, print, Display, to_vec family, iterators, get/index, is_list, "
+                "clone, ==, drop, Datum clone/==/drop, from_value/to_value) no recursive cycle passes through code over the "
+                "(car, cdr) payload aggregate - the shape derived Clone/PartialEq and drop glue have - except drop glue "
+                "sanctioned by an iterative manual Drop, and no recursive call receives a cdr-derived argument unless it is "
+                "edge-dominated by the non-Cons arm of a match on that cdr. Recursion therefore follows car / vector "
+                "nesting only. One open known finding (ConsAccess, deserialize_any) is reported as KNOWN-FINDING.",
+        "note": _TB + "Recursion behind dyn calls is not followed (virtual calls are leaves, counted in evidence; none on "
+                "these paths today). Operation coverage is what /verif/roots instantiates. Two reviewed cdr-argument "
+                "exceptions live in tables/spine_exceptions.json.",
+        "technique": "monomorphic call-graph SCC analysis (rustc instance resolution incl. drop glue and shims) + cdr-taint "
+                     "dataflow with edge-dominance guards",
+    },
 }
